@@ -394,13 +394,14 @@ def count_versions(obj):
     manager = get_versioning_manager(obj)
     table_name = manager.option(obj, 'table_name') % obj.__table__.name
     criteria = [
-        '%s = %r' % (pk, getattr(obj, pk))
-        for pk in get_primary_keys(obj)
+        sa.column(column.name) == getattr(obj, key)
+        for key, column in get_primary_keys(obj).items()
     ]
-    query = sa.text('SELECT COUNT(1) FROM %s WHERE %s' % (
-        table_name,
-        ' AND '.join(criteria)
-    ))
+    query = (
+        sa.select(sa.func.count(1))
+        .select_from(sa.table(table_name))
+        .where(sa.and_(*criteria))
+    )
     return session.execute(query).scalar()
 
 
